@@ -10,12 +10,12 @@ import (
 func init() {
 	register(&Rule{
 		ID: "R16.1", Props: []string{"C16", "C09"}, Engine: "order (path automaton, err-edge sensitive)",
-		Text: "every I/O error of the underlying reader is offered to the handler exactly once and the handler's verdict is what the consumer gets: in errorHandlingReader.Read, errorHandlingChunkReader.Read and casErrorHandlingBuffer.tryRepeatedly, on every path on which the underlying operation failed with something other than io.EOF, ErrorHandler.OnError is called with that error before the function returns or retries, a non-nil error returned by OnError is returned unchanged, and otherwise the replacement buffer it returned is the one that is opened / retried",
+		Text:  "every I/O error of the underlying reader is offered to the handler exactly once and the handler's verdict is what the consumer gets: in errorHandlingReader.Read, errorHandlingChunkReader.Read and casErrorHandlingBuffer.tryRepeatedly, on every path on which the underlying operation failed with something other than io.EOF, ErrorHandler.OnError is called with that error before the function returns or retries, a non-nil error returned by OnError is returned unchanged, and otherwise the replacement buffer it returned is the one that is opened / retried",
 		Floor: 3, MustExist: true, Run: runR161,
 	})
 	register(&Rule{
 		ID: "R16.4", Props: []string{"C16", "C09"}, Engine: "order + flow (path automaton)",
-		Text: "delivered-offset bookkeeping: in the two error-handling Read methods the offset field is advanced by exactly the length of the data obtained from the underlying read (n, resp. len(chunk)) before that data is returned to the caller and before a replacement is opened; replacements are opened unvalidated at that tracked offset; nothing else writes the offset",
+		Text:  "delivered-offset bookkeeping: in the two error-handling Read methods the offset field is advanced by exactly the length of the data obtained from the underlying read (n, resp. len(chunk)) before that data is returned to the caller and before a replacement is opened; replacements are opened unvalidated at that tracked offset; nothing else writes the offset",
 		Floor: 4, MustExist: true, Run: runR164,
 	})
 }
